@@ -5,6 +5,7 @@ import TflModel.Props.C06
 import TflModel.Lemmas.Linear
 import TflModel.Lemmas.Kahn
 import TflModel.Lemmas.VerifyLinear
+import TflModel.Lemmas.VerifyPwl
 /-!
 # C16 — configurations are rejected up front (`ValueError`) or handled totally and finitely;
 synonymous spellings configure identical behaviour
@@ -226,20 +227,21 @@ theorem verifyLattice_boxes (r : RawLatFull) (c : LatCfg) (h : verifyLattice r =
 
 
 theorem strictlyIncreasing_lengths : ∀ (ks : List Rat), strictlyIncreasing ks = true →
-    ∀ d ∈ pieceLengths ks, 0 < d := by
-  intro ks
-  induction ks with
-  | nil => intro _ d hd; simp [pieceLengths] at hd
-  | cons a rest ih =>
-    cases rest with
-    | nil => intro _ d hd; simp [pieceLengths] at hd
-    | cons b rest' =>
-      intro h d hd
-      simp only [strictlyIncreasing, Bool.and_eq_true, decide_eq_true_eq] at h
-      simp only [pieceLengths, List.tail_cons, List.zipWith_cons_cons, List.mem_cons] at hd
-      rcases hd with e | e
-      · subst e; linarith [h.1]
-      · exact ih h.2 d (by simpa [pieceLengths] using e)
+    ∀ d ∈ pieceLengths ks, 0 < d := Tfl.Verify.strictlyIncreasing_lengths
+
+/-- **C16-T1 (lattice sizes, fix 93797fc)** an accepted lattice has at least one dimension: the
+hypothesis `sizes ≠ []` of the C02 / C03 theorems (restated for accepted configurations in
+Props/C02Accepted.lean). -/
+theorem verifyLattice_sizes_ne_nil (r : RawLatFull) (c : LatCfg) (h : verifyLattice r = .ok c) :
+    c.sizes ≠ [] ∧ c.toLat.sizes ≠ [] :=
+  ⟨(verifyLattice_sizes h).1.1, (verifyLattice_sizes h).2.1⟩
+
+/-- **C16-T1 (PWL constraints class, fix e215d06)** list lengths accepted by
+`PWLCalibrationConstraints.__init__` are all positive — the denominators of the slope (convexity)
+projections; `Tfl.PwlProj.AllPos`, the hypothesis of every C04 theorem (discharged in
+Props/C04Accepted.lean). -/
+theorem pwlConstraints_lengths_pos (r : RawPwlC) (c : PwlCfg) (h : pwlConstraints r = .ok c) :
+    ∀ ls, c.lengths = some ls → ∀ d ∈ ls, 0 < d := (verifyPwl_spec h).2.1
 
 /-- **C16-T1 (PWL)** accepted keypoints are at least two and strictly increasing — every piece has
 a positive length (the denominators of the interpolation weights); `output_min ≤ output_max`;
@@ -271,6 +273,8 @@ theorem verifyPwl_ok (kp omin omax mono conv cyc kpt : Val) (c : PwlCfg)
               split at h
               · cases h
               · rename_i hcyc
+                split at h
+                · cases h
                 split at h
                 · cases h
                 · simp only [pure, Except.pure, Except.ok.injEq] at h
@@ -345,6 +349,13 @@ theorem verifyLinear_scalings_nonzero (nid : Option Nat) (mv mdv rdv iminv imaxv
 
 /-! ### Categorical, KFL -/
 
+theorem lessThan_false {v : Val} {k : Rat} (h : lessThan v k = .ok false) :
+    ∀ i : Int, v = .a (.int i) → k ≤ i := by
+  intro i hv
+  subst hv
+  simp only [lessThan, Atom.toNum, Atom.num, Except.map, Except.ok.injEq, decide_eq_false_iff_not, not_lt] at h
+  exact h
+
 theorem catPair_spec {nb : Option Int} {it : Item} {p : Rat × Rat} (h : catPair nb it = .ok p) :
     0 ≤ p.1 ∧ 0 ≤ p.2 ∧ ∀ k : Int, nb = some k → p.1 < k ∧ p.2 < k := by
   unfold catPair at h
@@ -388,6 +399,10 @@ theorem verifyCategorical_ok (nb omin omax mono : Val) (c : CatCfg)
   simp only [verifyCategorical, bind, Except.bind] at h
   split at h
   · cases h
+  split at h
+  · cases h
+  split at h
+  · cases h
   · rename_i lo _
     split at h
     · cases h
@@ -422,8 +437,16 @@ theorem verifyCategorical_ok (nb omin omax mono : Val) (c : CatCfg)
 theorem verifyCategorical_parts {nb omin omax mono : Val} {c : CatCfg}
     (h : verifyCategorical nb omin omax mono = .ok c) :
     catPairs (nbOf nb) mono = .ok c.pairs ∧ kahnAcyclic c.pairs.length c.pairs = true ∧
-    c.buckets = (nbOf nb).map Int.toNat := by
+    c.buckets = (nbOf nb).map Int.toNat ∧ lessThan nb 1 = .ok false := by
   simp only [verifyCategorical, bind, Except.bind] at h
+  split at h
+  · cases h
+  rename_i few hfew
+  split at h
+  · cases h
+  rename_i hf
+  have hfew' : lessThan nb 1 = .ok false := by
+    rw [hfew]; congr; simpa using hf
   split at h
   · cases h
   · split at h
@@ -438,7 +461,7 @@ theorem verifyCategorical_parts {nb omin omax mono : Val} {c : CatCfg}
           · rename_i hk
             simp only [pure, Except.pure, Except.ok.injEq] at h
             subst h
-            exact ⟨hps, by simpa using hk, rfl⟩
+            exact ⟨hps, by simpa using hk, rfl, hfew'⟩
 
 /-- **C16 (categorical, cycle check)** whatever `categorical_calibration_lib.verify_hyperparameters`
 accepts — for ALL raw arguments — passes the round-based check of fix 66006cc: the loop ends with
@@ -446,6 +469,27 @@ accepts — for ALL raw arguments — passes the round-based check of fix 66006c
 theorem verifyCategorical_kahn (nb omin omax mono : Val) (c : CatCfg)
     (h : verifyCategorical nb omin omax mono = .ok c) :
     kahnAcyclic c.pairs.length c.pairs = true := (verifyCategorical_parts h).2.1
+
+/-- **C16-T1 (categorical, fix 76984f9)** an accepted `num_buckets` is at least 1: the calibrator
+has a bucket to look up (`num_buckets - 1`, the bucket of `default_input_value`, is a valid index) -/
+theorem verifyCategorical_buckets_pos (nb omin omax mono : Val) (c : CatCfg)
+    (h : verifyCategorical nb omin omax mono = .ok c) : ∀ n, c.buckets = some n → 1 ≤ n := by
+  obtain ⟨_, _, hb, hlt⟩ := verifyCategorical_parts h
+  intro n hn
+  rw [hb] at hn
+  cases hk : nbOf nb with
+  | none => rw [hk] at hn; cases hn
+  | some k =>
+    rw [hk] at hn
+    simp only [Option.map_some, Option.some.injEq] at hn
+    have hv : nb = .a (.int k) := by
+      unfold nbOf at hk
+      split at hk
+      · simp only [Option.some.injEq] at hk; subst hk; rfl
+      · cases hk
+    have := lessThan_false hlt k hv
+    have hk1 : (1 : Int) ≤ k := by exact_mod_cast this
+    omega
 
 /-- **C16 (categorical, accepted ⇒ acyclic)** an accepted pair list has no cycle
 `x → … → x` (self pairs and cycles behind a root included), as a statement about the indices as
@@ -530,14 +574,15 @@ theorem verifyCategorical_acyclic (nb omin omax mono : Val) (c : CatCfg)
     (fun a b ha hb e => floor_toNat_inj (hnn a ha).1 (hnn b hb).1 (hnn a ha).2 (hnn b hb).2 e)
     (verifyCategorical_pacyclic nb omin omax mono c h))
 
-/-- **the cycle check rejects EXACTLY the cyclic pair lists**: with bounds in order and every pair
+/-- **the cycle check rejects EXACTLY the cyclic pair lists**: with `num_buckets ≥ 1`, bounds in order and every pair
 well-formed and in range, the configuration is accepted iff its pair list has no cycle
 (soundness `kahnAcyclic_sound` and completeness `kahnAcyclic_complete` of the rounds). -/
 theorem verifyCategorical_accepts_iff (nb omin omax mono : Val) (lo hi : Option Rat) (ps : List (Rat × Rat))
+    (hnb : lessThan nb 1 = .ok false)
     (hlo : boundOf omin = .ok lo) (hhi : boundOf omax = .ok hi) (hb : hiLtLo lo hi = false)
     (hps : catPairs (nbOf nb) mono = .ok ps) :
     outcome (verifyCategorical nb omin omax mono) = 0 ↔ PAcyclic ps := by
-  simp only [verifyCategorical, bind, Except.bind, hlo, hhi, hb, hps]
+  simp only [verifyCategorical, bind, Except.bind, hnb, hlo, hhi, hb, hps]
   by_cases hk : kahnAcyclic ps.length ps = true
   · simp [hk, outcome, pure, Except.pure, (kahnAcyclic_iff ps).mp hk]
   · have : ¬ PAcyclic ps := fun h => hk ((kahnAcyclic_iff ps).mpr h)
@@ -568,7 +613,7 @@ theorem categoricalLayer_projection_total (r : RawCat) (c : CatCfg) (h : categor
       ∀ k, k < out.length → (∀ l, c.lo = some l → l ≤ Tfl.Poset.getV out k) ∧
         (∀ h', c.hi = some h' → Tfl.Poset.getV out k ≤ h') := by
   have hok := verifyCategorical_ok r.nb r.omin r.omax r.mono c h
-  have hb := (verifyCategorical_parts h).2.2
+  have hb := (verifyCategorical_parts h).2.2.1
   rw [hn] at hb
   cases hnb : nbOf r.nb with
   | none => rw [hnb] at hb; cases hb
@@ -614,13 +659,6 @@ and the projection of a hostile column is feasible -/
 example : outcome (categoricalLayer ⟨.a (.int 4), .a (.flt 0), .a (.flt 1),
     .s false [.s true [.int 0, .int 1], .s true [.int 0, .int 2], .s false [.int 1, .int 3], .s true [.int 2, .int 3],
       .s true [.int 0, .int 1]]⟩) = 0 := by decide +kernel
-
-theorem lessThan_false {v : Val} {k : Rat} (h : lessThan v k = .ok false) :
-    ∀ i : Int, v = .a (.int i) → k ≤ i := by
-  intro i hv
-  subst hv
-  simp only [lessThan, Atom.toNum, Atom.num, Except.map, Except.ok.injEq, decide_eq_false_iff_not, not_lt] at h
-  exact h
 
 /-- **C16-T1 (KFL)** accepted ⇒ `lattice_sizes ≥ 2`, `units ≥ 1`, `num_terms ≥ 1`,
 `output_min < output_max` -/
@@ -1020,6 +1058,76 @@ theorem fixed_C16_t_non_integer_index_rejected :
     lay (.int 0) (.flt 1) = 1 ∧ lay (.int 0) (.flt (3/2)) = 1 ∧ lay (.flt 0) (.int 1) = 1 ∧ lay .none (.int 1) = 1 ∧
     lay (.int 0) (.str .other) = 1 ∧ con (.int 0) (.flt 1) = 1 ∧ con (.flt (1/2)) (.int 1) = 1 ∧
     lay (.int 0) (.int 1) = 0 ∧ con (.int 0) (.int 1) = 0 := by decide +kernel
+
+/-- **F-C16-u, fixed by 2ef7ec2**: circular Linear dominance sets are rejected with a `ValueError` at
+construction — a 3-cycle of monotonic dominances, a 3-cycle of range dominances, a cycle behind a
+root, a pair `(d, d)` (they were accepted: only a pair together with its reverse was rejected, and
+the first projection raised `ValueError` from `_topological_sort`); chains and the transitive
+triangle are accepted. -/
+theorem fixed_C16_u_circular_linear_dominances_rejected :
+    let pr (i j : Int) : Item := .s true [.int i, .int j]
+    let three : Val := .s false [.a (.int 1), .a (.int 1), .a (.int 1)]
+    let b0 : Val := .s false [.a (.flt 0), .a (.flt 0), .a (.flt 0)]
+    let b1 : Val := .s false [.a (.flt 1), .a (.flt 1), .a (.flt 1)]
+    let md (ps : List Item) : Nat := outcome (linearConstraints ⟨three, .s false ps, .a .none, .a .none, .a .none⟩)
+    let rd (ps : List Item) : Nat := outcome (linearConstraints ⟨three, .a .none, .s false ps, b0, b1⟩)
+    md [pr 0 1, pr 1 2, pr 2 0] = 1 ∧ rd [pr 0 1, pr 1 2, pr 2 0] = 1 ∧ md [pr 0 1, pr 1 2, pr 2 1] = 1 ∧
+    md [pr 0 0] = 1 ∧ rd [pr 0 1, pr 1 1] = 1 ∧
+    md [pr 0 1, pr 1 2] = 0 ∧ rd [pr 1 2, pr 0 1] = 0 ∧ md [pr 0 1, pr 1 2, pr 0 2] = 0 := by decide +kernel
+
+/-- **F-C16-x, fixed by 1f0b06a**: a range dominance between features whose monotonicity is `None`
+is rejected like monotonicity 0 (`None == 0` is `False`, so `[None, None]` used to be accepted —
+a dominance between non-monotone features, which the property names as invalid); with `1, 1` the
+same configuration is accepted. -/
+theorem fixed_C16_x_range_dominance_none_monotonicity_rejected :
+    let b0 : Val := .s false [.a (.flt 0), .a (.flt 0)]
+    let b1 : Val := .s false [.a (.flt 1), .a (.flt 1)]
+    let rdv : Val := .s false [.s true [.int 0, .int 1]]
+    outcome (linearConstraints ⟨.s false [.a .none, .a .none], .a .none, rdv, b0, b1⟩) = 1 ∧
+    outcome (linearConstraints ⟨.s false [.a (.int 0), .a (.int 0)], .a .none, rdv, b0, b1⟩) = 1 ∧
+    outcome (linearConstraints ⟨.s false [.a (.int 1), .a (.int 1)], .a .none, rdv, b0, b1⟩) = 0 := by decide +kernel
+
+/-- **F-C16-y, fixed by 93797fc**: empty `lattice_sizes` (`[]`, `()`, `None`) are a `ValueError` for
+the constraints class, the layer, the initializers and the regularizers (an empty lattice was
+accepted and raised `ZeroDivisionError` / `IndexError` later). -/
+theorem fixed_C16_y_empty_lattice_sizes_rejected :
+    let con (sz : Val) : Nat := outcome (latticeConstraints ⟨sz, .a .none, .a .none, .a .none, .a .none, .a .none,
+      .a .none, .a .none, .none, .a .none, .a .none⟩)
+    con (.s false []) = 1 ∧ con (.s true []) = 1 ∧ con (.a .none) = 1 ∧ con (.s false [.a (.int 2)]) = 0 ∧
+    outcome (latticeLayer ⟨.s false [], .a .none, .a .none, .none, .a .none, .a .none, .a (.str .hypercube),
+      .a (.str .other)⟩) = 1 ∧
+    outcome (linearInitializer ⟨.s false [], .a .none, .a (.flt 0), .a (.flt 1), .a .none⟩) = 1 ∧
+    outcome (laplacianRegularizer ⟨.s false [], .a (.flt (1/2)), .a (.flt 0)⟩) = 1 := by decide +kernel
+
+/-- **F-C16-z, fixed by 76984f9**: `num_buckets < 1` (0, -1) is a `ValueError` at construction (a
+calibrator without buckets was accepted and returned 0, outside its output bounds); 1 is accepted. -/
+theorem fixed_C16_z_zero_buckets_rejected :
+    let lay (k : Int) : Nat := outcome (categoricalLayer ⟨.a (.int k), .a (.flt 1), .a (.flt 2), .a .none⟩)
+    lay 0 = 1 ∧ lay (-1) = 1 ∧ lay 1 = 0 := by decide +kernel
+
+/-- **F-C16-aa, fixed by e215d06**: `PWLCalibrationConstraints(convexity=1, lengths=[0, 0, 1])` — and
+every list of lengths with a non-positive entry — is a `ValueError` at construction (it was
+accepted and the convexity projection divided by the zero lengths: NaN); positive lengths are
+accepted. -/
+theorem fixed_C16_aa_non_positive_lengths_rejected :
+    let con (ls : List Rat) : Nat := outcome (pwlConstraints ⟨.a (.int 0), .a (.int 1),
+      .s false (ls.map (fun l => Item.a (.flt l))), .a .none, .a .none⟩)
+    con [0, 0, 1] = 1 ∧ con [1, 0] = 1 ∧ con [1, -1/2] = 1 ∧ con [1, 2] = 0 ∧
+    outcome (pwlConstraints ⟨.a (.int 0), .a (.int 1), .a .none, .a .none, .a .none⟩) = 0 := by decide +kernel
+
+/-- **F-C16-ab, fixed by b6fcc7a**: `premade_lib.verify_config` rejects an empty `feature_configs`
+list, an explicit ensemble with an empty lattice, and an empty `output_initialization` (they were
+accepted and the model constructors raised `IndexError`); the well-formed configurations next to
+them are accepted. -/
+theorem fixed_C16_ab_premade_empties_rejected :
+    let f : Feat := ⟨2, 0, 0, 0, 0, 0, 0, 0⟩
+    let ok : RawPremade := ⟨2, some [f, f], 0, 0, 2, 2, some 2, 1, 0, 0, 0⟩
+    outcome (premadeConfig ok) = 0 ∧
+    outcome (premadeConfig { ok with feats := some [] }) = 1 ∧
+    outcome (premadeConfig { ok with kind := 0, feats := some [] }) = 1 ∧
+    outcome (premadeConfig { ok with lat := 3 }) = 1 ∧
+    outcome (premadeConfig { ok with outInit := 4 }) = 1 ∧
+    outcome (premadeConfig { ok with kind := 0, outInit := 4 }) = 1 := by decide +kernel
 
 /-- **F-C16-k, fixed by 7b8a1bf (and c6f03d2 for the categorical part)**: the failure was one of
 dtypes at the first call (a float32 `tf.ones` concatenated with float64 interpolation weights), which
